@@ -128,7 +128,17 @@ let () =
               ((if rest = [] then "-" else String.concat "," (List.rev rest)), Some w)
           | _ -> (ops, None) in
         let ops = parse_ops deliver names ops in
-        let cfg = { c_cap = nat_of_int (int_of_string cap); c_max = n_of_int (1024 * int_of_string maxkb) } in
+        (* mode …@cfg<K>: the configuration as an operator writes it (sd.cfgVariant). What the unchanged
+           constructors make of it: an empty or non-numeric maxkb is refused (the case ends with NEWERR);
+           maxkb 0, negative or absent means no limit, a huge one is never reached; a negative cap is no cap *)
+        let cfgk = (match String.index_opt mode '@' with
+          | Some i when String.length mode >= i + 5 && String.sub mode i 4 = "@cfg" ->
+              int_of_string (String.sub mode (i + 4) (String.length mode - i - 4))
+          | _ -> 0) in
+        if kind = "mem" && (cfgk = 2 || cfgk = 4) then
+          Mlutil.print_model ["NEWERR"] (if outs = ["NEWERR"] then "ok" else "fail:constructor-accepted-unparsable-maxkb")
+        else
+        let cfg = { c_cap = nat_of_int (max 0 (int_of_string cap)); c_max = n_of_int (1024 * max 0 (int_of_string maxkb)) } in
         let model = if kind = "mem" then run_mem cfg ops else run_file cfg [] ops in
         let wtok = match wop with
           | None -> []
